@@ -89,6 +89,7 @@ pub struct SymRng {
 }
 impl SymRng {
     pub fn new(model: &str, name: &str) -> SymRng {
+        let name = if model == "period2" { "period2-device" } else { name };
         SymRng { name: name.to_string(), ctr: 0, model: model.to_string() }
     }
     pub fn replay(&self) -> SymRng {
